@@ -522,6 +522,44 @@ def trans_check(pid, tier, replay_file=None):
     violations, cov, assumptions = trans_core(pid, TRANS_PLANS[pid], tier, replay_file)
     return finish(pid, tier, 'model_checking', cov, t0, violations, [], assumptions)
 
+def poolstruct_step(pid, tier, cov, violations):
+    """spec/PoolStruct.tla: the pointer-level idle queue and connection list refine the sequences Transport.tla uses (exhaustive),
+    two deviations must break the refinement (vacuity), and every written-out history is stepped through the real connQueue / conns."""
+    INV = ['QueueRefines', 'ResultsRefine', 'ListRefines', 'RoundRobin', 'Emit']
+    runs = [('queue', 2, 6 if tier == 'quick' else 8), ('conns', 3, 7 if tier == 'quick' else 8)]
+    cov.setdefault('poolstruct', [])
+    for mode, cap, depth in runs:
+        c = {'Cap': cap, 'Vals': {1, 2, 3}, 'Depth': depth, 'Mode': mode, 'Deviation': 'none'}
+        wd = scratch('ps_%s_%s' % (pid, mode))
+        res = run_tlc(wd, 'PoolStruct.tla', cfg_text('Spec', c, INV), ['PoolStruct.tla'], workers=8, timeout=1200)
+        if res['violated'] or not res['complete']:
+            raise Machinery('PoolStruct (%s): %s\n%s' % (mode, res['violated'] or 'incomplete', res['out'][-1500:]))
+        outf = os.path.join(wd, 'tlc.out')
+        open(outf, 'w').write(res['out'])
+        resf = os.path.join(wd, 'res.json')
+        rc, out = sh([build_harness(), 'poolstruct', '-in', outf, '-cap', str(cap), '-out', resf], timeout=600)
+        if rc != 0 or not os.path.exists(resf):
+            raise Machinery('poolstruct driver failed: ' + out[-800:])
+        r = json.load(open(resf))
+        if r['histories'] == 0:
+            raise Machinery('PoolStruct (%s) wrote no histories' % mode)
+        cov['poolstruct'].append({'mode': mode, 'Cap': cap, 'Depth': depth, 'distinct_states': res['distinct'], 'histories_replayed': r['histories'],
+                                  'steps': r['steps'], 'ops': r['ops']})
+        cov['states'] += res['distinct']; cov['transitions'] += res['states']
+        for msg in (r['failures'] or [])[:3]:
+            violations.append({'property': pid, 'signature': 'poolstruct:%s:%s' % (mode, msg.split(':')[0].split(' ')[-1] if ':' in msg else 'x'),
+                               'summary': '%s: the pool\'s %s departs from the sequence the Transport specification means: %s' % (pid, 'idle queue' if mode == 'queue' else 'connection list', msg[:600]),
+                               'schedule': None, 'finding': {'kind': 'poolstruct', 'detail': msg}, 'trace': []})
+        shutil.rmtree(wd, ignore_errors=True)
+    for dev in ('AlwaysRelinkFront', 'DequeueKeepsLength'):
+        c = {'Cap': 2, 'Vals': {1, 2, 3}, 'Depth': 6, 'Mode': 'queue', 'Deviation': dev}
+        wd = scratch('ps_%s_%s' % (pid, dev))
+        res = run_tlc(wd, 'PoolStruct.tla', cfg_text('Spec', c, INV[:4]), ['PoolStruct.tla'], workers=4, timeout=300)
+        shutil.rmtree(wd, ignore_errors=True)
+        if not res['violated']:
+            raise Machinery('PoolStruct deviation %s does not break the refinement (vacuity)' % dev)
+        cov['deviation_runs'].append({'deviation': ['PoolStruct:' + dev], 'violated_in_model': res['violated'], 'states_generated': res['states'], 'schedule_len': 0})
+
 def trans_core(pid, plan, tier, replay_file=None, models=True):
     sd = seed()
     assumptions = ['servers are in-process (one rpc.Server per address) reached through Transport.Dial over the harness\'s in-memory wire',
@@ -580,6 +618,8 @@ def trans_core(pid, plan, tier, replay_file=None, models=True):
                              {'a': 'Burst', 'k': 5, 'addr': 'a'}, {'a': 'Advance'}, {'a': 'Advance'}, {'a': 'Advance'}, {'a': 'Tick'}, {'a': 'Tick'},
                              {'a': 'Burst', 'k': 4, 'addr': 'a'}]
                     schedules.append({'name': 'burst:%d:%d' % (j, rep), 'cfg': cfg, 'steps': steps})
+    if not replay_file and models and pid in ('C13', 'C15') and not os.environ.get('VERIF_SKIP_MC'):
+        poolstruct_step(pid, tier, cov, violations)
     rp, crashes = tf.replay(schedules, pid)
     for cr in crashes:
         first = cr['panic'].splitlines()[0] if cr['panic'] else 'crash'
